@@ -1,4 +1,5 @@
 import Crd.Props.C09
+import Crd.Props.IO
 #print axioms Crd.Props.C09.text_conv_never_crashes
 #print axioms Crd.Props.C09.text_parse_never_crashes
 #print axioms Crd.Props.C09.write_never_crashes
@@ -19,3 +20,4 @@ import Crd.Props.C09
 #print axioms Crd.Props.C09.written_piece_was_valid
 #print axioms Crd.Props.C09.panic_sites_accounted
 #print axioms Crd.Props.C09.signature_keys_parse
+#print axioms Crd.Props.IO.io_sites_accounted
